@@ -16,6 +16,9 @@ import (
 
 	"github.com/openGemini/openGemini/engine/hybridqp"
 	"github.com/openGemini/openGemini/lib/util/lifted/influx/influxql"
+	"github.com/openGemini/openGemini/lib/util/lifted/influx/query"
+	internal "github.com/openGemini/openGemini/lib/util/lifted/influx/query/proto"
+	"google.golang.org/protobuf/proto"
 )
 
 // textCase is the self-contained witness of every text-driven case.
@@ -298,8 +301,8 @@ func (r *reporter) violation(sig, what string, w any) {
 	r.c.Violation(sig, what, w)
 }
 
-// roundTripExpr is the core oracle: the planned tree e, printed and parsed the way the
-// store does it, must be the same tree.
+// roundTripExpr is the printer/parser oracle: the tree e, printed with String() and parsed
+// with ParseExpr, must be the same tree.
 func (r *reporter) roundTripExpr(stage string, e influxql.Expr, tc textCase) {
 	c := r.c
 	tc.Stage = stage
@@ -311,23 +314,155 @@ func (r *reporter) roundTripExpr(stage string, e influxql.Expr, tc textCase) {
 	c.LogInput(tc)
 	e2, err := rdParseExpr(s, nil)
 	c.Count("roundtrips:"+stage, 1)
-	if err != nil {
+	r.judgeExpr("expr-roundtrip:String", stage, e, e2, err, s, tc)
+}
+
+// judgeExpr compares the planned tree with what came back and reports a difference
+// under a signature that names its verified reason.
+func (r *reporter) judgeExpr(prefix, stage string, e, e2 influxql.Expr, err error, printed string, tc textCase, ship ...func(influxql.Expr) (influxql.Expr, error)) {
+	c := r.c
+	explainString := func(e influxql.Expr) string {
+		why := explainString(e)
+		if len(ship) == 0 || !strings.Contains(why, "+") || !strings.Contains(why, "string-literal-with-cr-or-nul") {
+			return why
+		}
+		// the shipping path may already print parentheses and fractions itself: does the tree
+		// without CR/NUL pass through it?
+		var b strings.Builder
+		refRender(&b, e, refOpts{parens: true, typed: true, noCR: true})
+		if t, perr := rdParseExpr(b.String(), nil); perr == nil && t != nil {
+			o := canonOpts{stripParens: true, timeAsString: true}
+			if got, serr := ship[0](t); serr == nil && got != nil && canon(got, o) == canon(t, o) {
+				return "string-literal-with-cr-or-nul"
+			}
+		}
+		return why
+	}
+	if err == nil {
+		v := classifyExpr(e, e2)
+		if v.Equal {
+			c.Count("equal:"+stage, 1)
+			return
+		}
+		if v.Tolerated {
+			c.Count("equal-modulo-"+v.Class+":"+stage, 1)
+			return
+		}
+		if why := explainString(e); why != "" {
+			r.violation(prefix+":"+why, fmt.Sprintf("%s: tree sent as %q comes back as a different tree (...%s... vs ...%s...); it round-trips once the text %s",
+				stage, clip(printed), v.CtxA, v.CtxB, whyText(why)), tc)
+			return
+		}
 		cs := causes(e)
-		sig := "expr-roundtrip:reparse-error:" + normErr(err) + "|cause=" + strings.Join(cs, "+")
-		r.violation(sig, fmt.Sprintf("%s: printed %q cannot be parsed by ParseExpr: %v", stage, clip(s), err), tc)
+		r.violation(prefix+":"+v.Class+"|cause="+strings.Join(cs, "+"),
+			fmt.Sprintf("%s: tree sent as %q comes back as a different tree: ...%s... vs ...%s...", stage, clip(printed), v.CtxA, v.CtxB), tc)
 		return
 	}
-	v := classifyExpr(e, e2)
-	switch {
-	case v.Equal:
-		c.Count("equal:"+stage, 1)
-	case v.Tolerated:
-		c.Count("equal-modulo-"+v.Class+":"+stage, 1)
-	default:
-		cs := causes(e)
-		sig := "expr-roundtrip:" + v.Class + "|cause=" + strings.Join(cs, "+")
-		r.violation(sig, fmt.Sprintf("%s: tree printed as %q re-parses to a different tree: ...%s... vs ...%s...", stage, clip(s), v.CtxA, v.CtxB), tc)
+	if why := explainString(e); why != "" {
+		r.violation(prefix+":"+why, fmt.Sprintf("%s: text %q is rejected by the receiving parser (%v); the tree round-trips once the text %s",
+			stage, clip(printed), err, whyText(why)), tc)
+		return
 	}
+	cs := causes(e)
+	r.violation(prefix+":reparse-error:"+normErr(err)+"|cause="+strings.Join(cs, "+"),
+		fmt.Sprintf("%s: text %q is rejected by the receiving parser: %v", stage, clip(printed), err), tc)
+}
+
+func whyText(why string) string {
+	var parts []string
+	for _, w := range strings.Split(why, "+") {
+		switch w {
+		case "omits-needed-parens":
+			parts = append(parts, "parenthesises operands that bind weaker than their parent")
+		case "integral-number-printed-as-integer":
+			parts = append(parts, "keeps a fraction on integral number literals")
+		case "string-literal-with-cr-or-nul":
+			parts = append(parts, "has no CR/NUL inside string literals (QuoteString does not escape them and the scanner cannot read them)")
+		}
+	}
+	return strings.Join(parts, " and ")
+}
+
+// codecCondition ships e as ProcessorOptions.Condition through the real options codec.
+func (r *reporter) codecCondition(stage string, e influxql.Expr, tc textCase) {
+	c := r.c
+	tc.Stage = stage
+	opt := query.ProcessorOptions{Condition: e}
+	var got query.ProcessorOptions
+	var err error
+	var buf []byte
+	if p := vf.Catch(func() {
+		buf, err = opt.MarshalBinary()
+		if err == nil {
+			err = got.UnmarshalBinary(buf)
+		}
+	}); p != nil {
+		r.violation("opts-codec:Condition:panic", fmt.Sprintf("%s: options codec panicked: %v", stage, p), tc)
+		return
+	}
+	c.Count("roundtrips:"+stage, 1)
+	printed := shippedText(buf, 13) // field 13 = Condition
+	r.judgeExpr("opts-codec:Condition", stage, e, got.Condition, err, printed, tc, shipCondition)
+}
+
+type stubCatalog struct {
+	hybridqp.Catalog
+	fields influxql.Fields
+	names  []string
+}
+
+func (s *stubCatalog) GetColumnNames() []string        { return s.names }
+func (s *stubCatalog) GetQueryFields() influxql.Fields { return s.fields }
+func (s *stubCatalog) GetUnnests() influxql.Unnests    { return nil }
+
+// codecFields ships fields as QuerySchema.QueryFields through the real schema codec
+// (query.EncodeQuerySchema; the decoder's first step is hybridqp.ParseFields).
+func (r *reporter) codecFields(stage string, fields influxql.Fields, tc textCase) {
+	c := r.c
+	tc.Stage = stage
+	var text string
+	var got influxql.Fields
+	var err error
+	if p := vf.Catch(func() {
+		pb := query.EncodeQuerySchema(&stubCatalog{fields: fields, names: []string{"x"}})
+		text = pb.QueryFields
+		got, err = hybridqp.ParseFields(text)
+	}); p != nil {
+		r.violation("schema-codec:QueryFields:panic", fmt.Sprintf("%s: schema codec panicked: %v", stage, p), tc)
+		return
+	}
+	c.Count("roundtrips:"+stage, 1)
+	if err == nil && len(got) != len(fields) {
+		r.violation("schema-codec:QueryFields:field-count", fmt.Sprintf("%s: %d fields sent as %q come back as %d", stage, len(fields), clip(text), len(got)), tc)
+		return
+	}
+	for i := range fields {
+		var g influxql.Expr
+		if err == nil {
+			if fields[i].Alias != got[i].Alias {
+				r.violation("schema-codec:QueryFields:alias", fmt.Sprintf("%s: alias %q comes back as %q (text %q)", stage, fields[i].Alias, got[i].Alias, clip(text)), tc)
+				return
+			}
+			g = got[i].Expr
+		}
+		r.judgeExpr("schema-codec:QueryFields", stage, fields[i].Expr, g, err, text, tc, shipField)
+		if err != nil {
+			return
+		}
+	}
+}
+
+// shippedText extracts a string field of the marshalled options message (for messages only).
+func shippedText(buf []byte, field int) string {
+	var pb internal.ProcessorOptions
+	if err := proto.Unmarshal(buf, &pb); err != nil {
+		return "<unreadable>"
+	}
+	switch field {
+	case 13:
+		return pb.Condition
+	}
+	return ""
 }
 
 func clip(s string) string {
@@ -339,9 +474,7 @@ func clip(s string) string {
 
 func (r *reporter) noteAccepted(parser string, feats map[string]bool, e influxql.Expr, text string) {
 	c := r.c
-	for f := range feats {
-		c.Distinct("features-accepted-by-"+parser, f)
-	}
+	r.noteFeatures(parser, feats)
 	if opCount(e) >= 2 {
 		c.Nontrivial("expr:" + text)
 	}
@@ -389,8 +522,11 @@ func (r *reporter) checkExprText(tc textCase, feats map[string]bool) {
 	r.roundTripExpr("yacc", e, tc)
 
 	if tc.Kind == "arith" {
-		// fields travel as Fields.String() and come back through hybridqp.ParseFields
+		// fields travel as text inside the QuerySchema message and come back through hybridqp.ParseFields
 		r.roundTripFields("yacc-fields", st.Fields, tc)
+		r.codecFields("schema-codec(yacc fields)", st.Fields, tc)
+	} else {
+		r.codecCondition("opts-codec(yacc condition)", e, tc)
 	}
 
 	// (3) the tree the planner actually puts into the options: the condition with the
@@ -416,6 +552,7 @@ func (r *reporter) checkExprText(tc textCase, feats map[string]bool) {
 		}
 		if cond != nil {
 			r.roundTripExpr("yacc+ConditionExpr", cond, tc)
+			r.codecCondition("opts-codec(planned condition)", cond, tc)
 		}
 	} else if len(st2.Fields) == 1 {
 		var red influxql.Expr
@@ -428,6 +565,7 @@ func (r *reporter) checkExprText(tc textCase, feats map[string]bool) {
 		}
 		if red != nil {
 			r.roundTripExpr("yacc+Reduce", red, tc)
+			r.codecFields("schema-codec(planned field)", influxql.Fields{&influxql.Field{Expr: red, Alias: st2.Fields[0].Alias}}, tc)
 		}
 	}
 }
@@ -448,31 +586,21 @@ func (r *reporter) roundTripFields(stage string, fields influxql.Fields, tc text
 		return
 	}
 	c.Count("roundtrips:"+stage, 1)
-	if err != nil {
-		cs := causes(fields)
-		r.violation("fields-roundtrip:reparse-error:"+normErr(err)+"|cause="+strings.Join(cs, "+"),
-			fmt.Sprintf("%s: printed fields %q cannot be parsed by hybridqp.ParseFields: %v", stage, clip(s), err), tc)
-		return
-	}
-	if len(got) != len(fields) {
+	if err == nil && len(got) != len(fields) {
 		r.violation("fields-roundtrip:field-count", fmt.Sprintf("%s: %d fields printed as %q come back as %d", stage, len(fields), clip(s), len(got)), tc)
 		return
 	}
 	for i := range fields {
-		if fields[i].Alias != got[i].Alias {
-			r.violation("fields-roundtrip:alias", fmt.Sprintf("%s: alias %q comes back as %q (text %q)", stage, fields[i].Alias, got[i].Alias, clip(s)), tc)
-			return
+		var g influxql.Expr
+		if err == nil {
+			if fields[i].Alias != got[i].Alias {
+				r.violation("fields-roundtrip:alias", fmt.Sprintf("%s: alias %q comes back as %q (text %q)", stage, fields[i].Alias, got[i].Alias, clip(s)), tc)
+				return
+			}
+			g = got[i].Expr
 		}
-		v := classifyExpr(fields[i].Expr, got[i].Expr)
-		switch {
-		case v.Equal:
-			c.Count("equal:"+stage, 1)
-		case v.Tolerated:
-			c.Count("equal-modulo-"+v.Class+":"+stage, 1)
-		default:
-			cs := causes(fields[i].Expr)
-			r.violation("fields-roundtrip:"+v.Class+"|cause="+strings.Join(cs, "+"),
-				fmt.Sprintf("%s: field printed as %q re-parses to a different tree: ...%s... vs ...%s...", stage, clip(s), v.CtxA, v.CtxB), tc)
+		r.judgeExpr("fields-roundtrip:String", stage, fields[i].Expr, g, err, s, tc)
+		if err != nil {
 			return
 		}
 	}
@@ -494,7 +622,7 @@ func (r *reporter) compareNodes(prefix, stage string, a, b any, base canonOpts, 
 	}
 }
 
-func (r *reporter) roundTripSource(stage string, src influxql.Source, base canonOpts, tc textCase) {
+func (r *reporter) roundTripSource(stage string, src influxql.Source, base canonOpts, tc textCase, mk ...func(fill, alias bool) (influxql.Node, func(string) (influxql.Node, error))) {
 	c := r.c
 	tc.Stage = stage
 	var s string
@@ -509,12 +637,23 @@ func (r *reporter) roundTripSource(stage string, src influxql.Source, base canon
 		return
 	}
 	c.Count("roundtrips:"+stage, 1)
+	if err == nil && classify(src, got, base).Equal {
+		c.Count("equal:"+stage, 1)
+		return
+	}
+	if len(mk) > 0 {
+		if why := explainLegacy(mk[0]); why != "" {
+			r.violation("source-roundtrip:not-read-back-by-ParseSource:"+why,
+				fmt.Sprintf("%s: source printed as %q is not read back by ParseSource (err=%v); it is once the %s is removed", stage, clip(s), err, why), tc)
+			return
+		}
+	}
 	if err != nil {
-		r.violation("source-roundtrip:reparse-error:"+normErr(err)+"|cause="+strings.Join(causes(src), "+"),
+		r.violation("source-roundtrip:reparse-error:"+normErr(err),
 			fmt.Sprintf("%s: printed source %q cannot be parsed by ParseSource: %v", stage, clip(s), err), tc)
 		return
 	}
-	r.compareNodes("source-roundtrip", stage, src, got, base, s, tc, causes(src))
+	r.compareNodes("source-roundtrip", stage, src, got, base, s, tc, nil)
 }
 
 func (r *reporter) checkSourceText(tc textCase, feats map[string]bool) {
@@ -531,9 +670,7 @@ func (r *reporter) checkSourceText(tc textCase, feats map[string]bool) {
 	if err != nil || src == nil {
 		c.Count("rejected-by-ParseSource", 1)
 	} else {
-		for f := range feats {
-			c.Distinct("features-accepted-by-ParseSource", f)
-		}
+		r.noteFeatures("ParseSource", feats)
 		c.Nontrivial("source:" + tc.Text)
 		r.roundTripSource("ParseSource", src, canonOpts{}, tc)
 	}
@@ -542,11 +679,67 @@ func (r *reporter) checkSourceText(tc textCase, feats map[string]bool) {
 		c.Count("rejected-by-yacc:source", 1)
 		return
 	}
-	for f := range feats {
-		c.Distinct("features-accepted-by-yacc", f)
-	}
+	r.noteFeatures("yacc", feats)
 	// the two parsers fill derived SelectStatement fields differently; compare what has a spelling
-	r.roundTripSource("yacc-source", st.Sources[0], canonOpts{selectSyntax: true}, tc)
+	r.roundTripSource("yacc-source", st.Sources[0], canonOpts{selectSyntax: true}, tc, func(fill, alias bool) (influxql.Node, func(string) (influxql.Node, error)) {
+		st, err := yaccSelect("SELECT f FROM "+tc.Text, nil)
+		if err != nil || len(st.Sources) != 1 {
+			return nil, nil
+		}
+		stripSelect(st, fill, alias)
+		return st.Sources[0], func(s string) (influxql.Node, error) { return influxql.ParseSource(s) }
+	})
+}
+
+// stripSelect removes from a statement the clauses that the hand-written statement parser
+// (which reads shipped sub-queries back) is known not to read: fill(), source aliases.
+func stripSelect(st *influxql.SelectStatement, fill, alias bool) {
+	if st == nil {
+		return
+	}
+	if fill {
+		st.Fill, st.FillValue = influxql.NullFill, nil
+	}
+	for _, src := range st.Sources {
+		switch x := src.(type) {
+		case *influxql.Measurement:
+			if alias {
+				x.Alias = ""
+			}
+		case *influxql.SubQuery:
+			if alias {
+				x.Alias = ""
+			}
+			stripSelect(x.Statement, fill, alias)
+		}
+	}
+}
+
+// explainLegacy names which of {fill(), aliases} keep a yacc-built statement or source from
+// being read back by the hand-written parser, by removing them and trying again.
+func explainLegacy(mk func(fill, alias bool) (influxql.Node, func(string) (influxql.Node, error))) string {
+	if mk == nil {
+		return ""
+	}
+	for _, v := range []struct {
+		name        string
+		fill, alias bool
+	}{{"fill-clause", true, false}, {"source-alias", false, true}, {"fill-clause+source-alias", true, true}} {
+		n, parse := mk(v.fill, v.alias)
+		if n == nil {
+			return ""
+		}
+		ok := false
+		vf.Catch(func() {
+			got, err := parse(n.String())
+			o := canonOpts{selectSyntax: true, stripParens: true}
+			ok = err == nil && canon(n, o) == canon(got, o)
+		})
+		if ok {
+			return v.name
+		}
+	}
+	return ""
 }
 
 // ---- sort fields
@@ -576,7 +769,7 @@ func (r *reporter) checkSortText(tc textCase, feats map[string]bool) {
 	c.LogInput(tc)
 	var sf influxql.SortFields
 	var err error
-	if p := vf.Catch(func() { sf, err = influxql.ParseSortFields("ORDER BY " + tc.Text) }); p != nil {
+	if p := vf.Catch(func() { sf, err = influxql.ParseSortFields(tc.Text) }); p != nil {
 		r.violation("sort-roundtrip:ParseSortFields-panic", fmt.Sprintf("ParseSortFields(%q) panicked: %v", clip(tc.Text), p), tc)
 		return
 	}
@@ -591,15 +784,13 @@ func (r *reporter) checkSortText(tc textCase, feats map[string]bool) {
 		c.Count("rejected-by-yacc:sort", 1)
 		return
 	}
-	for f := range feats {
-		c.Distinct("features-accepted-by-yacc", f)
-	}
+	r.noteFeatures("yacc", feats)
 	r.roundTripSort("yacc-sort", st.SortFields, tc)
 }
 
 // ---- whole SELECT statements
 
-func (r *reporter) roundTripStmt(stage string, st influxql.Statement, base canonOpts, tc textCase) {
+func (r *reporter) roundTripStmt(stage string, st influxql.Statement, base canonOpts, tc textCase, mk ...func(fill, alias bool) (influxql.Node, func(string) (influxql.Node, error))) {
 	c := r.c
 	tc.Stage = stage
 	var s string
@@ -614,12 +805,23 @@ func (r *reporter) roundTripStmt(stage string, st influxql.Statement, base canon
 		return
 	}
 	c.Count("roundtrips:"+stage, 1)
+	if err == nil && classify(st, got, base).Equal {
+		c.Count("equal:"+stage, 1)
+		return
+	}
+	if len(mk) > 0 {
+		if why := explainLegacy(mk[0]); why != "" {
+			r.violation("stmt-roundtrip:not-read-back-by-ParseStatement:"+why,
+				fmt.Sprintf("%s: statement printed as %q is not read back by ParseStatement (err=%v); it is once the %s is removed", stage, clip(s), err, why), tc)
+			return
+		}
+	}
 	if err != nil {
-		r.violation("stmt-roundtrip:reparse-error:"+normErr(err)+"|cause="+strings.Join(causes(st), "+"),
+		r.violation("stmt-roundtrip:reparse-error:"+normErr(err),
 			fmt.Sprintf("%s: printed statement %q cannot be parsed by ParseStatement: %v", stage, clip(s), err), tc)
 		return
 	}
-	r.compareNodes("stmt-roundtrip", stage, st, got, base, s, tc, causes(st))
+	r.compareNodes("stmt-roundtrip", stage, st, got, base, s, tc, nil)
 }
 
 func (r *reporter) checkStmtText(tc textCase, feats map[string]bool) {
@@ -636,9 +838,7 @@ func (r *reporter) checkStmtText(tc textCase, feats map[string]bool) {
 	if err != nil || st == nil {
 		c.Count("rejected-by-ParseStatement", 1)
 	} else {
-		for f := range feats {
-			c.Distinct("features-accepted-by-ParseStatement", f)
-		}
+		r.noteFeatures("ParseStatement", feats)
 		c.Nontrivial("stmt:" + tc.Text)
 		r.roundTripStmt("ParseStatement", st, canonOpts{}, tc)
 	}
@@ -647,9 +847,61 @@ func (r *reporter) checkStmtText(tc textCase, feats map[string]bool) {
 		c.Count("rejected-by-yacc:stmt", 1)
 		return
 	}
-	for f := range feats {
-		c.Distinct("features-accepted-by-yacc", f)
-	}
+	r.noteFeatures("yacc", feats)
 	c.Nontrivial("stmt:" + tc.Text)
-	r.roundTripStmt("yacc-stmt", yst, canonOpts{selectSyntax: true}, tc)
+	r.roundTripStmt("yacc-stmt", yst, canonOpts{selectSyntax: true}, tc, func(fill, alias bool) (influxql.Node, func(string) (influxql.Node, error)) {
+		st, err := yaccSelect(tc.Text, decodeParams(tc.Params))
+		if err != nil {
+			return nil, nil
+		}
+		stripSelect(st, fill, alias)
+		return st, func(s string) (influxql.Node, error) { return influxql.ParseStatement(s) }
+	})
+}
+
+func (r *reporter) noteFeatures(parser string, feats map[string]bool) {
+	for f := range feats {
+		r.c.Distinct("features-accepted-by-"+parser, f)
+		if requiredSet[f] {
+			r.c.Distinct("reached:"+f, "y")
+		}
+	}
+}
+
+var requiredSet = func() map[string]bool {
+	m := map[string]bool{}
+	for _, f := range requiredFeatures {
+		m[f] = true
+	}
+	return m
+}()
+
+func shipCondition(e influxql.Expr) (got influxql.Expr, err error) {
+	if p := vf.Catch(func() {
+		opt := query.ProcessorOptions{Condition: e}
+		var buf []byte
+		if buf, err = opt.MarshalBinary(); err != nil {
+			return
+		}
+		var o query.ProcessorOptions
+		if err = o.UnmarshalBinary(buf); err == nil {
+			got = o.Condition
+		}
+	}); p != nil {
+		return nil, fmt.Errorf("panic: %v", p)
+	}
+	return got, err
+}
+
+func shipField(e influxql.Expr) (got influxql.Expr, err error) {
+	if p := vf.Catch(func() {
+		pb := query.EncodeQuerySchema(&stubCatalog{fields: influxql.Fields{&influxql.Field{Expr: e}}, names: []string{"x"}})
+		var fs influxql.Fields
+		if fs, err = hybridqp.ParseFields(pb.QueryFields); err == nil && len(fs) == 1 {
+			got = fs[0].Expr
+		}
+	}); p != nil {
+		return nil, fmt.Errorf("panic: %v", p)
+	}
+	return got, err
 }
